@@ -13,7 +13,7 @@ PARTS = [("checks.wrappers", "run_part", {}),
          ("checks.kernels_scalar", "run_part", {"props_file": "Props/C02_scalar.v"}),
          ("checks.kernels_vector", "run_part", {"props_file": "Props/C02_vector.v"}),
          ("checks.ops_convpool", "run_part_c02", {}),
-         ("checks.ops_algebra", "run_part", {"prop": "C02"})]
+         ("checks.ops_algebra", "run_part", {"as_pid": "C01", "parts": ["addmm-linear"]})]
 
 
 def run(ctx):
